@@ -235,6 +235,9 @@ func ruleLEX1(c *Ctx) {
 			return true
 		})
 	}
+	if _, cfd := p.FuncDecl("internal/parser", "parser.on_lexer_card"); cfd != nil && len(cardOf) < 5 {
+		cardsFromTable(p, ppk, cfd, spell, cardOf)
+	}
 	_, fd := p.FuncDecl("internal/ast", "LexerTermCard.NFACons")
 	if fd == nil || len(cardOf) < 5 {
 		c.unres(rule, "ast.LexerTermCard.NFACons", "", "NFACons or the cardinality mapping of on_lexer_card (%d of 5 operators) not found", len(cardOf))
@@ -2111,4 +2114,30 @@ func chainByPrevious(info *types.Info, fd *ast.FuncDecl) bool {
 		return true
 	})
 	return okRet
+}
+
+
+// cardsFromTable: the token => constant mapping of a front-end action written as a lookup in a
+// constant table keyed by the token's type.
+func cardsFromTable(p *Program, pk *packages.Package, fd *ast.FuncDecl, spell map[types.Object]string, out map[string]*types.Const) {
+	info := pk.TypesInfo
+	ast.Inspect(fd.Body, func(n ast.Node) bool {
+		ix, ok := n.(*ast.IndexExpr)
+		if !ok {
+			return true
+		}
+		key, entries, ok := constTable(p, pk, ix)
+		if !ok {
+			return true
+		}
+		if sel, isSel := ast.Unparen(key).(*ast.SelectorExpr); !isSel || sel.Sel.Name != "Type" {
+			return true
+		}
+		for _, en := range entries {
+			if k, isK := usesObj(info, en.Val).(*types.Const); isK && en.Key != nil && spell[en.Key] != "" {
+				out[spell[en.Key]] = k
+			}
+		}
+		return true
+	})
 }
